@@ -120,7 +120,7 @@ var rawFloatsReviewed = map[string]string{
 func init() {
 	register(&Rule{
 		ID:    "C16.rawfloats",
-		Props: []string{"C16", "C13", "C03", "C06", "C14"},
+		Props: []string{"C16", "C13", "C03", "C06", "C14", "C10"},
 		Doc:   "the flat float slice of a Sequence is interpreted only by Sequence itself: the field Sequence.floats is read only in the methods of Sequence and its constructor (which apply the stride of the sequence's own coordinates type), plus the reviewed writers that copy the whole slice — any other function that walks the floats itself (with a stride of 2, say) mistakes Z and M ordinates for X and Y on XYZ/XYM/XYZM input",
 		Floor: 10,
 		Run:   runC16RawFloats,
